@@ -87,6 +87,7 @@ func checkMain(args []string) int {
 	fs := flag.NewFlagSet("check", flag.ExitOnError)
 	tier := fs.String("tier", "quick", "quick or thorough")
 	update := fs.Bool("update-ledger", false, "rewrite the ledger from this run (only if everything is proved)")
+	reset := fs.Bool("reset-ledger", false, "with -update-ledger: ignore the existing ledger (after a contract change)")
 	fs.Parse(args)
 	if fs.NArg() != 1 {
 		fmt.Fprintln(os.Stderr, "usage: pvc check [-tier quick|thorough] <property>")
@@ -102,6 +103,9 @@ func checkMain(args []string) int {
 	seed := 0
 	if v := os.Getenv("VERIF_SEED"); v != "" {
 		seed, _ = strconv.Atoi(v)
+	}
+	if *reset {
+		os.Remove(filepath.Join(verifRoot, "ledger", prop+".json"))
 	}
 	return runCheck(prop, *tier, seed, *update, nil, "")
 }
@@ -169,7 +173,25 @@ func runCheck(prop, tier string, seed int, update bool, overlay map[string][]byt
 			if !hasProp(c, prop) {
 				continue
 			}
-			results = append(results, Verify(w, c))
+			r := Verify(w, c)
+			// clauses restricted to other properties ("ensures @Cxx ...") are not part of this check
+			var keep []*Obligation
+			for _, o := range r.Obls {
+				if o.CExpr != nil && len(o.CExpr.Dir.Only) > 0 {
+					mine := false
+					for _, p := range o.CExpr.Dir.Only {
+						if p == prop {
+							mine = true
+						}
+					}
+					if !mine {
+						continue
+					}
+				}
+				keep = append(keep, o)
+			}
+			r.Obls = keep
+			results = append(results, r)
 		}
 	}
 	solverS := Discharge(results, timeout, seed, tier == "thorough", false)
@@ -213,6 +235,17 @@ func runCheck(prop, tier string, seed int, update bool, overlay map[string][]byt
 		reachableReturn := false
 		hasCanary := false
 		for _, o := range r.Obls {
+			if o.CExpr != nil && len(o.CExpr.Dir.Only) > 0 {
+				mine := false
+				for _, p := range o.CExpr.Dir.Only {
+					if p == prop {
+						mine = true
+					}
+				}
+				if !mine {
+					continue // this clause belongs to another property's check
+				}
+			}
 			rep := oblReport{Name: o.Name, Kind: o.Kind, Result: o.Result, Solver: o.Solver, Ms: o.Ms, Text: o.Text}
 			if o.ExpectSat {
 				if strings.Contains(o.Name, "/canary/") {
